@@ -2,14 +2,39 @@
 from lib.gen import P, rand_fr
 
 BACKENDS = ["full", "opt", "pm"]
+# the two in-memory trees instantiated with ANOTHER hasher (default leaf 7, H(a,b) = 3a+5b+11): what is generic in the hasher must not
+# assume that the default leaf is the field's zero / `Default::default()`
+GENERIC = ["fullT", "optT"]
 
 
 def hx(v):
     return hex(v)
 
 
+# values that are special INSIDE a hash tree: the roots of empty subtrees of every height (what the trees cache as "default nodes"),
+# filled by init_special() from the implementation's own hasher
+SPECIAL = []
+
+
+def init_special(zkh):
+    from lib import core
+    if SPECIAL:
+        return
+    lines = []
+    for k in range(1, 21):
+        lines += [f"tree new full {k}", "root"]
+    out = core.run_impl(zkh, lines)
+    for k in range(20):
+        try:
+            SPECIAL.append(int(out[2 * k + 1], 16))
+        except ValueError:
+            pass
+
+
 def val(rng):
     r = rng.random()
+    if SPECIAL and r < 0.06:
+        return rng.choice(SPECIAL)      # a leaf that equals the hash of an empty subtree
     if r < 0.5:
         return rng.randint(1, 50)
     if r < 0.6:
